@@ -711,4 +711,11 @@ def suite_codec(ctx):
     return s
 
 
-SUITES = [suite_history, suite_codec]
+def suite_two_clients(ctx):
+    """a second client object in the same process (inside a suppress block, a payload override, with adopted timing, reconfigured, after a failed call) never shows
+    in this client's frames or outcome: the C15 two_clients suite, run here as well (state kept on the class instead of the instance breaks this property too)"""
+    from . import c15
+    return c15.suite_two_clients(ctx)
+
+
+SUITES = [suite_history, suite_codec, suite_two_clients]
